@@ -17,18 +17,28 @@ ASYNCIO = "internet/asyncioreactor.py"
 SIGNALS = "internet/_signals.py"
 QR = "twisted.internet.base.ReactorBase"
 QUEUE = "threadCallQueue"
-TECHNIQUE = "queue-end kinds, CFG must-pass (enqueue-then-wake, prefix delete), sibling agreement"
+TECHNIQUE = "queue-end kinds, must-pass (enqueue-then-wake, prefix delete), coupled fields, guard table"
 EXPLANATION = (
-    "Decides: every ReactorBase.callFromThread variant appends exactly (f, args, kwargs) at the tail and never calls f itself; the "
-    "threaded variant then reaches wakeUp() on every path (enqueue before wake); threadCallQueue is mutated nowhere else in twisted "
-    "except the prefix delete in runUntilCurrent; runUntilCurrent iterates the queue from the head, calls each entry with its own "
-    "arguments inside a swallowing handler placed inside the loop, counts exactly one per iteration (exception path included), "
-    "deletes exactly the counted prefix on every path after the loop and wakes itself when entries remain; mainLoop drains on every "
-    "iteration inside its top handler; wakeUp() reaches waker.wakeUp() whenever a waker exists, installWaker registers the waker as "
-    "reader, the wakers write a non-empty byte string to the write end of the pipe/socket pair; AsyncioSelectorReactor hands the "
-    "call to call_soon_threadsafe unchanged, and its timer fields are coupled (every writer of _timerHandle/_scheduledAt keeps `deadline recorded => live handle`, else callLater's re-arm decision is evaluated over the unrestricted state table). Not decided: thread interleavings, the GIL-atomicity of list.append, latency, IOCP / "
-    "threadedselect wakers."
+    "Clauses are decided on normalised copies of ReactorBase / AsyncioSelectorReactor (private helpers inlined, temporaries substituted). "
+    "Exactly once, per-thread order - STRUCTURAL (queue-end kinds, who-may-write over the whole repository, must-pass): every callFromThread variant appends "
+    "exactly (f, args, kwargs) at the tail on every path and never calls f itself; threadCallQueue is mutated nowhere else except the prefix delete of the "
+    "drain; the drain iterates the live queue from its head (islice accepted), calls each entry once with its own arguments inside a swallowing handler "
+    "inside the loop, counts one per iteration on every edge (exception and break edges included), deletes exactly the counted prefix on every path. "
+    "In the reactor thread, promptly - STRUCTURAL (must-pass / must-precede): enqueue precedes wakeUp() and wakeUp() follows on every path (threads variant), "
+    "wakeUp reaches waker.wakeUp unconditionally when a waker exists, a non-empty remainder wakes again, mainLoop drains every iteration under its top "
+    "handler, __init__ installs the waker, installWaker adds it as reader, the selected waker writes a non-empty constant to the write end of its pair. "
+    "Asyncio sibling - STRUCTURAL: call_soon_threadsafe with the call unchanged; _timerHandle/_scheduledAt coupled over all writers (deadline recorded => "
+    "live handle); FINITE-EXHAUSTIVE: callLater's re-arm condition, shown to inspect its state only through None-tests and order comparisons with "
+    "_scheduledAt, is evaluated on every class of (handle, recorded deadline, new deadline). "
+    "Not decided (no decider): real thread interleavings, GIL atomicity of list.append, latency, IOCP / threadedselect wakers."
 )
+RULE_KINDS = {
+    "*": "structural",
+    # guard table of callLater's re-arm condition over every (handle None/armed) x (deadline None/past/future) x (new earlier/later) class; complete
+    # because the condition is first shown to look at its inputs only through `is None` tests and </<=/>/>= against _scheduledAt
+    "asyncio/rearm-decision": "finite-exhaustive",
+    "asyncio/rearm-decision-sampled": "bounded",
+}
 ASSUMPTIONS = [
     "rules read a normalised copy of the class: a private non-generator method that is not an anchor, is only ever called as self._h(...) "
     "inside its class and is mentioned in no other module is inlined at its call sites; single-assignment naming temporaries are substituted "
@@ -505,6 +515,7 @@ def _timer_coupling(ctx):
     f = ctx.func(ASYNCIO, "AsyncioSelectorReactor.callLater")
     q = f"{QA}.callLater"
     rcalls = [c for c in body_walk(f) if _is_call(c, "self._reschedule")]
+    rearm_rule = ["asyncio/rearm-decision"]
     rows_bad = []
     nrows = 0
     for c in rcalls:
@@ -513,6 +524,20 @@ def _timer_coupling(ctx):
         if any(any(x is c for st in p.orelse for x in ast.walk(st)) for p in parents(c) if isinstance(p, ast.If)):
             raise AnalysisError("C13: _reschedule() in an else-branch of callLater: decision shape not recognised")
         free = sorted({n.id for t in tests for n in ast.walk(t.test) if isinstance(n, ast.Name) and n.id != "self"})
+        # domain argument: the condition looks at its inputs only through None-tests and order comparisons between the new deadline and
+        # self._scheduledAt, so one representative per (None-ness, ordering) class is exhaustive
+        def atom_ok(cmp):
+            if len(cmp.ops) != 1:
+                return False
+            l, r = cmp.left, cmp.comparators[0]
+            if isinstance(cmp.ops[0], (ast.Is, ast.IsNot)) and is_const(r, None) and (self_attr(l, "_scheduledAt") or self_attr(l, "_timerHandle")):
+                return True
+            if isinstance(cmp.ops[0], (ast.Lt, ast.LtE, ast.Gt, ast.GtE)):
+                return {src(l), src(r)} == {free[0] if free else "", "self._scheduledAt"}
+            return False
+        atoms_complete = all(atom_ok(x) for t in tests for x in ast.walk(t.test) if isinstance(x, ast.Compare)) and \
+            not any(isinstance(x, ast.Call) for t in tests for x in ast.walk(t.test))
+        rearm_rule[0] = "asyncio/rearm-decision" if atoms_complete else "asyncio/rearm-decision-sampled"
         if len(free) > 1:
             raise AnalysisError(f"C13: re-arm condition of callLater has several free variables: {free}")
         NOW = 10.0
@@ -540,16 +565,16 @@ def _timer_coupling(ctx):
     ctx.need(rcalls, "self._reschedule() in asyncio callLater")
     if lemma:
         ctx.ok("asyncio/timer-fields-coupled", QA, f"{nsites} writer sites keep `_scheduledAt is not None => live handle`")
-        ctx.check(not rows_bad, "asyncio/rearm-decision", q, "callLater does not arm the timer although it must: " + "; ".join(rows_bad[:2]), detail=f"{nrows} rows")
+        ctx.check(not rows_bad, rearm_rule[0], q, "callLater does not arm the timer although it must: " + "; ".join(rows_bad[:2]), detail=f"{nrows} rows; domain complete: the condition only tests None-ness and orders the new deadline against _scheduledAt")
     elif not rows_bad:
         ctx.ok("asyncio/timer-fields-coupled", QA, "fields decoupled at " + "; ".join(k for k, _, _ in broken) + " but callLater's decision re-arms whenever no handle is armed")
-        ctx.ok("asyncio/rearm-decision", q, f"{nrows} rows (unrestricted)")
+        ctx.ok(rearm_rule[0], q, f"{nrows} rows (unrestricted)")
     else:
         for key, what, wit in broken:
             ctx.violation("asyncio/timer-fields-coupled", key,
                           what + ": afterwards callLater never arms a timer (" + rows_bad[0] + "), so every callFromThread call, which goes through callLater(0, ...), "
                           "stays in the heap until an unrelated timer fires", wit)
-        ctx.violation("asyncio/rearm-decision", q, "with the fields decoupled, callLater does not arm the timer although none is armed: " + "; ".join(rows_bad[:2]))
+        ctx.violation(rearm_rule[0], q, "with the fields decoupled, callLater does not arm the timer although none is armed: " + "; ".join(rows_bad[:2]))
 
 
 def is_zero(e):
